@@ -26,8 +26,7 @@ type exec struct {
 	solos  map[string]Outcome
 	soloK  []soloKey
 	cache  *cacheModel
-	saved  interface{} // the package's cache before this run replaced it
-	stop   bool        // global state is wedged (modelled deadlock): stop executing
+	stop   bool // global state is wedged (modelled deadlock): stop executing
 }
 
 type soloKey struct {
@@ -150,9 +149,13 @@ func budgetFor(solo Outcome) int {
 	return b
 }
 
-// installCache applies Cfg.CacheCap; the previous cache is restored by finish.
+// installCache puts the package's global state into the run's initial state:
+// a new default regexp cache (or a client cache of Cfg.CacheCap), empty
+// builder pools, the run's pool variant. A run is then a pure function of its
+// scenario, whatever ran before it in this process.
 func (x *exec) installCache() {
-	x.saved = currentCache().install
+	xpath.VerifResetRegexpCache()
+	vs.ResetPools()
 	vs.SetPoolMode(x.s.Cfg.PoolMode)
 	if x.s.Cfg.CacheCap >= 0 {
 		x.cache = newCacheModel(x, x.s.Cfg.CacheCap)
@@ -164,7 +167,6 @@ func (x *exec) installCache() {
 
 func (x *exec) finish() {
 	sim.Store(nil)
-	restoreCache(x.saved)
 	x.res.LogHash = x.sim.hash
 	x.res.Trace = x.sim.tr
 	x.res.Stats.Runs = 1
